@@ -519,7 +519,7 @@ func runSymbolFields(p *Prog, r *Report) {
 		ng++
 		recv := info.ObjectOf(fn.Decl.Recv.List[0].Names[0])
 		usesType := false
-		var labelVars []types.Object
+		var labelVars, labelKeys []types.Object
 		fullRange := false
 		ast.Inspect(fn.Body, func(m ast.Node) bool {
 			switch x := m.(type) {
@@ -527,18 +527,64 @@ func runSymbolFields(p *Prog, r *Report) {
 				if id, ok := x.X.(*ast.Ident); ok && info.ObjectOf(id) == recv && canonId(x.Sel.Name) == "Type" {
 					usesType = true
 				}
-			case *ast.RangeStmt:
-				if sel, ok := ast.Unparen(x.X).(*ast.SelectorExpr); ok && canonId(sel.Sel.Name) == "Labels" {
+			case *ast.RangeStmt, *ast.ForStmt:
+				rs, _ := x.(*ast.RangeStmt)
+				if fs, isFor := x.(*ast.ForStmt); isFor {
+					rs = countingAsRange(fs)
+				}
+				if rs == nil {
+					return true
+				}
+				if sel, ok := ast.Unparen(rs.X).(*ast.SelectorExpr); ok && canonId(sel.Sel.Name) == "Labels" {
 					if id, ok := sel.X.(*ast.Ident); ok && info.ObjectOf(id) == recv {
 						fullRange = true
-						if vid, ok := x.Value.(*ast.Ident); ok && vid.Name != "_" {
+						if vid, ok := rs.Value.(*ast.Ident); ok && vid.Name != "_" {
 							labelVars = append(labelVars, info.ObjectOf(vid))
+						}
+						if kid, ok := rs.Key.(*ast.Ident); ok && kid.Name != "_" {
+							labelKeys = append(labelKeys, info.ObjectOf(kid))
 						}
 					}
 				}
 			}
 			return true
 		})
+		// recv.Labels[k] with k the key of such a loop is the label of the iteration
+		isLabelExpr := func(e ast.Expr) bool {
+			switch y := ast.Unparen(e).(type) {
+			case *ast.Ident:
+				for _, lv := range labelVars {
+					if info.ObjectOf(y) == lv {
+						return true
+					}
+				}
+			case *ast.IndexExpr:
+				sel, ok := ast.Unparen(y.X).(*ast.SelectorExpr)
+				if !ok || canonId(sel.Sel.Name) != "Labels" {
+					return false
+				}
+				if id, ok := sel.X.(*ast.Ident); !ok || info.ObjectOf(id) != recv {
+					return false
+				}
+				if kid, ok := ast.Unparen(y.Index).(*ast.Ident); ok {
+					for _, lk := range labelKeys {
+						if info.ObjectOf(kid) == lk {
+							return true
+						}
+					}
+				}
+			}
+			return false
+		}
+		if fullRange && len(labelVars) == 0 && len(labelKeys) > 0 {
+			ast.Inspect(fn.Body, func(m ast.Node) bool {
+				if ix, ok := m.(*ast.IndexExpr); ok && isLabelExpr(ix) {
+					labelVars = append(labelVars, nil) // the label is reached by index
+					return false
+				}
+				return true
+			})
+		}
 		var probs []string
 		if !usesType {
 			probs = append(probs, "the block type is not part of the name")
@@ -546,69 +592,86 @@ func runSymbolFields(p *Prog, r *Report) {
 		if !fullRange || len(labelVars) == 0 {
 			probs = append(probs, "the name is not built from a loop over all of the block's labels")
 		}
-		ast.Inspect(fn.Body, func(m ast.Node) bool {
-			call, ok := m.(*ast.CallExpr)
-			if !ok {
-				return true
-			}
-			takes := false
-			for _, a := range call.Args {
-				if id, ok := ast.Unparen(a).(*ast.Ident); ok {
-					for _, lv := range labelVars {
-						if info.ObjectOf(id) == lv {
-							takes = true
+		var scan func(in *Func, isLabel func(ast.Expr) bool, depth int)
+		scan = func(in *Func, isLabel func(ast.Expr) bool, depth int) {
+			info := in.Info()
+			ast.Inspect(in.Body, func(m ast.Node) bool {
+				call, ok := m.(*ast.CallExpr)
+				if !ok {
+					return true
+				}
+				takes := false
+				takesAt := -1
+				for ai, a := range call.Args {
+					if isLabel(a) {
+						takes = true
+						takesAt = ai
+					}
+				}
+				if !takes {
+					return true
+				}
+				full := calleeFull(info, call)
+				// a helper of the module that writes the label: judged by what it does with it
+				if hf := calleeOf(info, call); hf != nil && depth < 2 {
+					if ht := p.FuncOf[hf]; ht != nil && ht.Body != nil && ht != in {
+						if sig, ok := hf.Type().(*types.Signature); ok && !sig.Variadic() && takesAt < sig.Params().Len() {
+							po := sig.Params().At(takesAt)
+							hinfo := ht.Info()
+							scan(ht, func(e ast.Expr) bool {
+								id, ok := ast.Unparen(e).(*ast.Ident)
+								return ok && hinfo.ObjectOf(id) == types.Object(po)
+							}, depth+1)
+							return true
 						}
 					}
 				}
-			}
-			if !takes {
-				return true
-			}
-			full := calleeFull(info, call)
-			switch full {
-			case "strconv.Quote":
-				return true
-			case "fmt.Sprintf", "fmt.Fprintf":
-				fi := 0
-				if full == "fmt.Fprintf" {
-					fi = 1
-				}
-				if fi < len(call.Args) {
-					if f, ok := constString(info, call.Args[fi]); ok {
-						bad := ""
-						for i := 0; i+1 < len(f); i++ {
-							if f[i] == '%' {
-								j := i + 1
-								for j < len(f) && strings.ContainsRune("+-# 0123456789.", rune(f[j])) {
-									j++
+				switch full {
+				case "strconv.Quote":
+					return true
+				case "fmt.Sprintf", "fmt.Fprintf":
+					fi := 0
+					if full == "fmt.Fprintf" {
+						fi = 1
+					}
+					if fi < len(call.Args) {
+						if f, ok := constString(info, call.Args[fi]); ok {
+							bad := ""
+							for i := 0; i+1 < len(f); i++ {
+								if f[i] == '%' {
+									j := i + 1
+									for j < len(f) && strings.ContainsRune("+-# 0123456789.", rune(f[j])) {
+										j++
+									}
+									if j < len(f) && f[j] != 'q' && f[j] != '%' || j-i > 1 {
+										bad = f[i : j+1]
+									}
+									i = j
 								}
-								if j < len(f) && f[j] != 'q' && f[j] != '%' || j-i > 1 {
-									bad = f[i : j+1]
-								}
-								i = j
+							}
+							if bad == "" {
+								return true
+							}
+							probs = append(probs, "a label is formatted with "+bad+" (labels are Go-quoted with %q)")
+							return true
+						}
+					}
+					probs = append(probs, "a label is formatted with a non-constant format")
+				default:
+					if f := calleeOf(info, call); f != nil {
+						if sig, ok := f.Type().(*types.Signature); ok && sig.Recv() != nil {
+							if rn := namedOf(derefType(sig.Recv().Type())); rn != nil && rn.Obj().Pkg() != nil && rn.Obj().Pkg().Path() == "strings" && rn.Obj().Name() == "Builder" {
+								probs = append(probs, "a label is written without Go-quoting (the reviewed name quotes every label with %q)")
+								return true
 							}
 						}
-						if bad == "" {
-							return true
-						}
-						probs = append(probs, "a label is formatted with "+bad+" (labels are Go-quoted with %q)")
-						return true
 					}
+					probs = append(probs, "a label passes through "+full+", which does not keep the text as written (the reviewed name quotes labels with %q / strconv.Quote only)")
 				}
-				probs = append(probs, "a label is formatted with a non-constant format")
-			default:
-				if f := calleeOf(info, call); f != nil {
-					if sig, ok := f.Type().(*types.Signature); ok && sig.Recv() != nil {
-						if rn := namedOf(derefType(sig.Recv().Type())); rn != nil && rn.Obj().Pkg() != nil && rn.Obj().Pkg().Path() == "strings" && rn.Obj().Name() == "Builder" {
-							probs = append(probs, "a label is written without Go-quoting (the reviewed name quotes every label with %q)")
-							return true
-						}
-					}
-				}
-				probs = append(probs, "a label passes through "+full+", which does not keep the text as written (the reviewed name quotes labels with %q / strconv.Quote only)")
-			}
-			return true
-		})
+				return true
+			})
+		}
+		scan(fn, isLabelExpr, 0)
 		if len(probs) == 0 {
 			r.Add("E10.getters", fn.Name, "block type and quoted labels", p.Pos(fn.Decl), OK, "the name is the block type followed by every label, Go-quoted", true)
 		} else {
